@@ -2,6 +2,7 @@
 # usage: run_seed.sh <seed label, e.g. C11A> <property> [tier]   -- applies the seeded patch to /repo, runs the check, reverts
 S=$1; P=$2; T=${3:-quick}
 cd /verif
+export VERIF_EVIDENCE_DIR=/tmp/seed-evidence   # never clobber the committed evidence with a run on a mutated tree
 git -C /repo apply /verif/seeded/$S/patch.diff || { echo "apply failed"; exit 3; }
 ./check $P --tier $T > /tmp/seedrun-$S-$P.log 2>&1; rc=$?
 git -C /repo checkout -- .
